@@ -12,7 +12,7 @@ use iceoryx2_bb_system_types::path::Path;
 use vlib::trace::TraceWriter;
 use vlib::{Args, Value, json};
 
-pub const TYPES: [&str; 6] = ["FileName", "Path", "FilePath", "ServiceName", "NodeName", "RFileName2"];
+pub const TYPES: [&str; 7] = ["FileName", "Path", "FilePath", "ServiceName", "NodeName", "RFileName2", "Str8"];
 
 /// constructor verdict of the real type: None = not constructible from these bytes (the &str based
 /// types cannot be fed invalid UTF-8), Some((accepted, bytes read back))
@@ -28,6 +28,10 @@ fn construct(ty: &str, b: &[u8]) -> Option<(bool, Vec<u8>)> {
         "Path" => sem::<255, Path>(b),
         "FilePath" => sem::<255, FilePath>(b),
         "RFileName2" => sem::<2, RestrictedFileName<2>>(b),
+        "Str8" => match iceoryx2_bb_container::string::StaticString::<8>::from_bytes(b) {
+            Ok(v) => Some((true, iceoryx2_bb_container::string::String::as_bytes(&v).to_vec())),
+            Err(_) => Some((false, vec![])),
+        },
         "ServiceName" => {
             let s = core::str::from_utf8(b).ok()?;
             match ServiceName::new(s) {
@@ -77,11 +81,38 @@ pub fn enumerate(args: &Args) {
     let mut first: Vec<Value> = vec![];
     let mut accepted: HashMap<&str, u64> = HashMap::new();
     let mut tuples: HashSet<u32> = HashSet::new();
+    let mut c_calls = 0u64;
     let mut check = |b: &[u8]| {
         strings += 1;
         let cls: Vec<u8> = b.iter().map(|x| map[*x as usize]).collect();
         let c = code(&cls);
         tuples.insert(c);
+        // the C string entry point (what the language bindings call): the string ends at its first NUL and is
+        // judged as a whole. All types up to length 2; RestrictedFileName<2> and StaticString<8> also at length 3
+        // (one byte more than the capacity of the former).
+        let eff = b.iter().position(|x| *x == 0).map(|p| &b[..p]).unwrap_or(b);
+        let ceff = code(&cls[..eff.len()]);
+        for ty in ["FileName", "Path", "FilePath", "RFileName2", "Str8"] {
+            if b.len() > 2 && ty != "RFileName2" && ty != "Str8" {
+                continue;
+            }
+            let exp = accept[ty].contains(&ceff);
+            let (acc, back) = match crate::ctors::make(ty, "from_c_str", b) {
+                Some(Ok(back)) => (true, back),
+                _ => (false, vec![]),
+            };
+            c_calls += 1;
+            evaluated += 1;
+            let bad_verdict = acc != exp;
+            let bad_rt = acc && back != eff;
+            if bad_verdict || bad_rt {
+                mismatches += 1;
+                if first.len() < 10 {
+                    first.push(json!({"ty":ty,"via":"from_c_str","bytes":b,"classes":cls,"oracle_accepts":exp,"real_accepts":acc,
+                        "read_back":back,"kind": if bad_verdict {"verdict"} else {"roundtrip"}}));
+                }
+            }
+        }
         for ty in TYPES {
             let exp = accept[ty].contains(&c);
             match construct(ty, b) {
@@ -96,7 +127,7 @@ pub fn enumerate(args: &Args) {
                     if bad_verdict || bad_rt {
                         mismatches += 1;
                         if first.len() < 10 {
-                            first.push(json!({"ty":ty,"bytes":b,"classes":cls,"oracle_accepts":exp,"real_accepts":acc,
+                            first.push(json!({"ty":ty,"via":"new","bytes":b,"classes":cls,"oracle_accepts":exp,"real_accepts":acc,
                                 "read_back":back,"kind": if bad_verdict {"verdict"} else {"roundtrip"}}));
                         }
                     }
@@ -138,13 +169,14 @@ pub fn enumerate(args: &Args) {
     println!(
         "{}",
         json!({"max_len":max_len,"sample":sample,"strings":strings,"evaluated":evaluated,"skipped_not_utf8":skipped,
-            "class_tuples_covered":tuples.len(),"mismatches":mismatches,"first":first,"accepted":accepted})
+            "class_tuples_covered":tuples.len(),"mismatches":mismatches,"first":first,"accepted":accepted,
+            "from_c_str_calls":c_calls})
     );
 }
 
 // ------------------------------------------------------------------------------------------------
 
-fn rand_string(rng: &mut vlib::rng::Rng, cap: usize, utf8_only: bool) -> Vec<u8> {
+pub fn rand_string(rng: &mut vlib::rng::Rng, cap: usize, utf8_only: bool) -> Vec<u8> {
     let len = match rng.below(10) {
         0 => 0,
         1 => 1,
@@ -187,7 +219,13 @@ fn rand_string(rng: &mut vlib::rng::Rng, cap: usize, utf8_only: bool) -> Vec<u8>
 }
 
 fn ev(w: &mut TraceWriter, per: &mut HashMap<String, u64>, a: &str, idx: usize, arg: &[u8], r: &str, s: &[u8]) {
-    w.emit(&json!({"k":"op","a":a,"idx":idx,"arg":arg,"r":r,"s":s}));
+    ev2(w, per, a, idx, 0, arg, r, s)
+}
+
+#[allow(clippy::too_many_arguments)]
+fn ev2(w: &mut TraceWriter, per: &mut HashMap<String, u64>, a: &str, idx: usize, idx2: usize, arg: &[u8], r: &str, s: &[u8]) {
+    let none: [u8; 0] = [];
+    w.emit(&json!({"k":"op","a":a,"via":"new","idx":idx,"idx2":idx2,"arg":arg,"arg2":none,"r":r,"s":s,"out":none}));
     let cls = if ["ok", "true", "false", "none"].contains(&r) { r } else { "err" };
     *per.entry(format!("{a}:{cls}")).or_insert(0) += 1;
 }
@@ -226,7 +264,28 @@ fn edit_run<const N: usize, T: SemanticString<N>>(
             Err(e) => format!("{e:?}"),
         };
         let _: &dyn Fn(Result<(), iceoryx2_bb_container::semantic_string::SemanticStringError>) -> String = &res;
-        match rng.below(9) {
+        match rng.below(12) {
+            9 => {
+                // push_bytes: several bytes at the end
+                let k = rng.range(1, 4) as usize;
+                let arg: Vec<u8> = (0..k).map(|_| *rng.pick(&bytes)).collect();
+                let r = res(v.push_bytes(&arg));
+                ev(w, per, "push", 0, &arg, &r, v.as_bytes());
+            }
+            10 => {
+                let idx = rng.below(len as u64 + 1) as usize;
+                let n = rng.below((len - idx) as u64 + 1) as usize;
+                let r = res(v.remove_range(idx, n));
+                ev2(w, per, "remove_range", idx, n, &[], &r, v.as_bytes());
+            }
+            11 => {
+                // retain removes every byte for which the closure returns true
+                let k = rng.range(1, 2) as usize;
+                let cur = v.as_bytes().to_vec();
+                let arg: Vec<u8> = (0..k).map(|_| if !cur.is_empty() && rng.chance(3, 4) { *rng.pick(&cur) } else { *rng.pick(&bytes) }).collect();
+                let r = res(v.retain(|b| arg.contains(&b)));
+                ev(w, per, "retain", 0, &arg, &r, v.as_bytes());
+            }
             0 => {
                 let b = *rng.pick(&bytes);
                 let r = res(v.push(b));
@@ -301,7 +360,7 @@ pub fn edits(args: &Args) {
     let mut rng = vlib::rng::Rng::new(vlib::seed_from_env().wrapping_mul(7).wrapping_add(11));
     let mut per: HashMap<String, u64> = HashMap::new();
     for run in 0..runs {
-        let ty = TYPES[(run % 6) as usize];
+        let ty = TYPES[(run % 7) as usize];
         w.emit(&json!({"k":"reset","run":run,"ty":ty}));
         match ty {
             "FileName" => edit_run::<255, FileName>(&mut w, &mut per, &mut rng, ops),
@@ -309,7 +368,7 @@ pub fn edits(args: &Args) {
             "FilePath" => edit_run::<255, FilePath>(&mut w, &mut per, &mut rng, ops),
             "RFileName2" => edit_run::<2, RestrictedFileName<2>>(&mut w, &mut per, &mut rng, ops),
             _ => {
-                let cap = if ty == "NodeName" { 128 } else { 255 };
+                let cap = crate::ctors::cap(ty);
                 let mut cur: Vec<u8> = vec![];
                 for _ in 0..(4 + ops / 2) {
                     let b = rand_string(&mut rng, cap, true);
